@@ -1784,7 +1784,8 @@ register("C09", run_C09, module="Robotools.Props.C09",
                    "reagent_distribution_carries_args", "rejected_appends_nothing", "set_diti_guard", "set_diti_record",
                    "decontaminate_guard", "decontaminate_record", "wash_guard")]
                   + ["Robotools.WF." + t for t in ("prepareAD_spec", "prepareAD_complete", "prepareAD_wf", "commentRecs_wf", "compileRD_spec", "wf_compile")]
-                  + ["Robotools." + t for t in ("parseNat_natDigits", "parseInt_intDigits", "parseFmt2_fmt2", "parse_render_ad", "parse_render_rd")],
+                  + ["Robotools." + t for t in ("parseNat_natDigits", "parseInt_intDigits", "parseFmt2_fmt2", "parse_render_ad", "parse_render_rd")]
+                  + ["Robotools.Tpl." + t for t in ("render_asp", "render_disp", "render_rd", "render_comment", "render_wash", "render_fixed", "render_setDiti")],
          genok=["gen_templateA_ok", "gen_templateD_ok", "gen_templateR_ok", "gen_templateRsrc_ok", "gen_templateRdst_ok",
                                 "gen_templateComment_ok", "gen_templateWash_ok", "gen_templateWashDiti_ok", "gen_templateDecon_ok",
                                 "gen_templateFlush_ok", "gen_templateCommit_ok", "gen_templateSetDiti_ok", "gen_maxRecordVolume_ok",
@@ -1805,7 +1806,8 @@ register("C13", run_C13, module="Robotools.Props.C13",
          theorems=["Robotools.C13." + t for t in ("evo_cmd_agrees", "evo_names_arguments", "evo_tracking_aspirate", "evo_tracking_dispense",
                    "accepted_expressible", "evo_rejects", "rejected_emits_no_command", "evo_wash_spec", "evo_wash_rejects_grid",
                    "evo_wash_rejects_other")]
-                  + ["Robotools.Evo." + t for t in ("evoAD_spec", "evoSel_spec", "enumWells_eq", "sel_sorted", "evoVols_spec", "evoTipVals_spec")],
+                  + ["Robotools.Evo." + t for t in ("evoAD_spec", "evoSel_spec", "enumWells_eq", "sel_sorted", "evoVols_spec", "evoTipVals_spec")]
+                  + ["Robotools.Tpl." + t for t in ("render_evoAD", "render_evoWash")],
          genok=["gen_templateEvoAspirate_ok", "gen_templateEvoDispense_ok", "gen_templateEvoWash_ok", "gen_tipSlots_ok",
                                 "gen_maxGrid_ok", "gen_maxSite_ok", "gen_maxDilutorVolume_ok", "gen_selBits_ok", "gen_selOffset_ok"],
          rule="evo_aspirate/evo_dispense/evo_wash programs on plates and troughs: wells of one column in ascending order with shuffled distinct tips, scalar and per-tip volumes; one fault per invalid call (order, repeats, columns, ranges, lengths)")
